@@ -648,7 +648,10 @@ def authenticated_regions(res: dict, size: int) -> list:
 
 
 def selftest(repo_root: str = "/repo") -> dict:
-    """Decode third-party (elftosb-made) SB 2.1 files of the repository's test data; spot-check their content."""
+    """Decode third-party (elftosb-made) SB 2.1 files of the repository's test data; spot-check their content.
+
+    ``legacy_real_example3_test_options.sb`` is decoded too but is NOT ground truth: its zero nonce / DEK / MAC, load
+    counts padded to 16 and byte-reversed blobs show it was written by SPSDK itself (reported separately)."""
     import os
 
     base = os.path.join(repo_root, "tests", "nxpimage", "data", "sb_sources")
@@ -668,11 +671,17 @@ def selftest(repo_root: str = "/repo") -> dict:
         assert r["version"] == (2, 1) and len(r["sections"]) >= 1, name
         assert r["sha"] == (name == "legacy_elftosb_sha.bin"), name
         assert r["file_blocks"] == r["image_blocks"], name
+        summary[name] = [len(s["commands"]) for s in r["sections"]]
+        if name == "legacy_real_example3_test_options.sb":
+            assert r["nonce"] == bytes(16) and r["dek"] == bytes(32), "expected the SPSDK-made file with fixed test options"
+            summary[name] = {"spsdk_made_not_ground_truth": summary[name]}
+            continue
         n_files += 1
         for s in r["sections"]:
             n_cmds += len(s["commands"])
             n_loads += sum(1 for c in s["commands"] if c[0] == "load")
-        summary[name] = [len(s["commands"]) for s in r["sections"]]
+            # elftosb stores the exact data length of a load (padding only in the stream)
+        assert all(c[3] == len(c[4]) for s in r["sections"] for c in s["commands"] if c[0] == "load"), name
         # wrong KEK and a flipped byte in each region must be refused
         try:
             decode(blob, bytes(32), expect_signed=True)
@@ -694,7 +703,8 @@ def selftest(repo_root: str = "/repo") -> dict:
             # from real_example3.bd (elftosb input): version checks, fuse programming, group memory ids, erase, jump
             assert c[0] == ("version_check", 0, 0xAFBC) and c[1] == ("version_check", 1, 1), c[:2]
             assert ("prog", 0x01000188, 4, 1, 0, 0) in c, [x for x in c if x[0] == "prog"]
-            assert any(x[0] == "load" and x[2] == 0x120 and x[4] == bytes.fromhex("aabbccdd") for x in c), "load @288"
+            assert any(x[0] == "load" and x[2] == 0x120 and x[3] == 4 and x[4] == bytes.fromhex("aabbccdd") for x in c), "load @288"
+            assert any(x[0] == "load" and x[3] == 15068 for x in c), "exact (unpadded) load count of the application image"
             assert ("enable", 0x0010C000, 4, 0x120) in c and ("enable", 0x0010C000, 4, 9) in c, [x for x in c if x[0] == "enable"]
             assert ("erase", 0, 0, 0, 2) in c and ("erase", 0, 0, 8, 1) in c, [x for x in c if x[0] == "erase"]
             assert ("erase", 0x8001000, 0x80074A4 - 0x8001000, 0x120, 0) in c and ("erase", 0x8001000, 0x80074A4 - 0x8001000, 0x121, 0) in c
